@@ -25,6 +25,23 @@ class C06(InvProp):
                 n['max'] = min(n['max'], round(n['init'] + span * rng.pick([0.02, 0.1, 0.3]), 3))
                 if rng.chance(0.5):
                     n['min'] = round(max(0.0, n['init'] - span * rng.pick([0.02, 0.1, 0.3])), 3)
+        # several links at a tank (the statement says so): extra pipes, some initially closed, created BEFORE or after the tank's
+        # own pipe, so that the link order seen by the simulator's tank-limit controls varies
+        juncs = [n['id'] for n in scn['nodes'] if n['type'] == 'J']
+        for tk in [n for n in scn['nodes'] if n['type'] == 'T']:
+            if not rng.chance(0.5):
+                continue
+            own = [i for i, l in enumerate(scn['links']) if tk['id'] in (l['a'], l['b'])]
+            for k in range(rng.irange(1, 2)):
+                j = rng.pick(juncs)
+                l = {'id': 'x%d%s' % (k + 1, tk['id']), 'type': 'pipe', 'a': tk['id'], 'b': j, 'len': rng.logu(300.0, 3000.0, 4),
+                     'diam': rng.pick([0.1, 0.15, 0.2]), 'rough': float(rng.pick([100, 120, 140])), 'minor': 0.0,
+                     'status': rng.pick(['CLOSED', 'CLOSED', 'OPEN']), 'cv': False}
+                if rng.chance(0.5):
+                    l['a'], l['b'] = l['b'], l['a']
+                if l['status'] == 'OPEN' and rng.chance(0.3):
+                    l['cv'] = True
+                scn['links'].insert(own[0] if (own and rng.chance(0.6)) else len(scn['links']), l)
         if rng.chance(0.5):
             gen.add_level_controls(rng, scn, rng.irange(1, 3))
         if rng.chance(0.3):
